@@ -3,7 +3,7 @@ import TLVerif.Acks.Acks
 /-! Line-protocol handler for the `acks` family.
 
 `acks.seq <prefix0> <from>:<to>,<from>:<to>,…` (`-` for no operations): start from
-`AcksToSend{ackPrefix: prefix0}`, apply `AddAckRange` for every pair; the result line is the observation
+`AcksToSend{ackPrefix: prefix0}`, apply `AddAckRange` for every pair; the result line is `ok ` followed by the observation
 after the initial state and after every operation, joined by ` ; `:
 `p=<ackPrefix> r=<from>:<to>,… e=<checkInvariantsCommon errors> ap=<AckPrefix|-> ar=<AckFrom>:<AckTo>|- as=<AckSet csv|-> n=<resend ranges|->`.
 -/
@@ -46,7 +46,7 @@ def handle (op : String) (args : List String) : String :=
   match op, args with
   | "seq", [p, o] =>
     match parseU32 p, parseOps o with
-    | some p0, some ops => " ; ".intercalate (observeAll ⟨p0, []⟩ ops [])
+    | some p0, some ops => "ok " ++ " ; ".intercalate (observeAll ⟨p0, []⟩ ops [])
     | _, _ => "bad-op"
   | _, _ => "bad-op"
 
